@@ -206,8 +206,8 @@ class Facts:
             data["_renames_applied"] = True
             renames.apply_fields(data)      # ... and so is a private field
             renames.apply_consts(data)      # ... or a private constant
-            renames.apply_statics(data)     # ... or a private static
             renames.apply(data)             # a function that only changed its name is read under the name the rules know
+            renames.apply_statics(data)     # ... or a private static (after the functions: its users are compared by name)
         self.data = data
         self.config = data.get("_config")
         self.bodies = {}
